@@ -300,7 +300,7 @@ def run(ctx, rep):
         rep.count(f"roundtrip:{kind}:frames={len(frames)}")
         rep.count(f"roundtrip:atoms={min(len(orig[0][0]), 6)}")
         if v:
-            rep.violate(v[0], v[1], {"kind": "roundtrip", "text": text})
+            rep.violate(v[0], v[1], {"kind": "roundtrip", "text": text, "orig": orig})
         if back[0] != "hang":
             rcases.append(f"({cq_nat(len(bases))}, DNone, {c10.obs_term(back, table)})")
             bases.append(lines)
@@ -340,9 +340,10 @@ def replay(ctx, data):
                 if r[0] != "ok" or not np.allclose(np.asarray(r[1], dtype=float), exp, rtol=2e-5, atol=2e-6):
                     out.append(vlib.Violation(f"C08:units:{fmt}:{uname}", f"{api} with source_units={uname}: {r}"))
     elif data.get("kind") == "roundtrip":
-        from molli.chem import Molecule
         text = data["text"]
         back = c10.observe(ml, "xyz", text)
-        if back[0] != "ok":
-            out.append(vlib.Violation("C08:xyz:cannot-read-back", f"{back}"))
+        orig = [(el, du, [tuple(c) for c in co]) for el, du, co in data.get("orig", [])]
+        v = judge_roundtrip("xyz", orig, back) if orig else (("C08:xyz:cannot-read-back", str(back)) if back[0] != "ok" else None)
+        if v:
+            out.append(vlib.Violation(v[0], v[1]))
     return out
